@@ -158,8 +158,9 @@ struct ArrTarget : Target {
     }
 
     void gen_steps(Plan& p, Rng& r, const std::string& tier) override {
-        std::vector<std::string> ops = {"ctor", "copy", "resize", "write", "read", "assign", "cast_kind", "cast_dtype", "assign_foreign", "destroy"};
-        std::vector<int> w = {4, 3, 10, 8, 2, 4, 2, 2, (Tr::family == NDARRAY ? 0 : 3), 1};
+        // the first three operations apply to a dead slot (constructions), the others to a live object
+        std::vector<std::string> ops = {"ctor", "copy", "ctor_nested", "resize", "write", "read", "assign", "cast_kind", "cast_dtype", "assign_foreign", "destroy"};
+        std::vector<int> w = {4, 3, (Tr::family == LEGACY_HYBRID || Tr::family == LEGACY_DYNAMIC ? 3 : 0), 10, 8, 2, 4, 2, 2, (Tr::family == NDARRAY ? 0 : 3), 1};
         for (auto& x : w) if (r.chance(0.15)) x = 0;
         if (w[0] == 0) w[0] = 4;
         long nobj = 1 + (long)r.below(NOBJ); p.seti("nobj", nobj);
@@ -168,7 +169,7 @@ struct ArrTarget : Target {
         bool live[NOBJ] = {};
         for (size_t k = 0; k < len; k++) {
             long o = (long)r.below((uint64_t)nobj);
-            int lo = live[o] ? 2 : 0, hi = live[o] ? (int)ops.size() : 2;
+            int lo = live[o] ? 3 : 0, hi = live[o] ? (int)ops.size() : 3;
             int total = 0; for (int i = lo; i < hi; i++) total += w[i];
             int op = lo; if (total) { int x = (int)r.below((uint64_t)total); while (x >= w[op]) { x -= w[op]; op++; } }
             Step s; s.op = ops[(size_t)op];
@@ -181,7 +182,7 @@ struct ArrTarget : Target {
                 s.a[3] = f[0]; s.a[4] = f[1]; s.a[5] = f[2]; s.a[6] = f[3];
             }
             if (s.op == "assign" && r.chance(0.15)) s.a[1] = o;
-            if (op == 0) live[o] = true;
+            if (op == 0 || op == 2) live[o] = true;
             if (op == 1 && live[s.a[1]] && s.a[1] != o) live[o] = true;
             if (s.op == "destroy") live[o] = false;
             p.steps.push_back(s);
@@ -227,6 +228,24 @@ struct ArrTarget : Target {
         return s;
     }
 
+    void nested_model(long o, const Shape& sh, const std::vector<E>& vals) {
+        env->slots.live[o] = true; model[o].shape = sh; model[o].val.assign(vals.size(), std::nullopt);
+        for (size_t i = 0; i < vals.size(); i++) model[o].val[i] = vals[i];
+    }
+    template <size_t N0> void nested1(long o) {
+        E a[N0]; std::vector<E> vals; { SimGuard g; for (size_t i = 0; i < N0; i++) { a[i] = val(env->next_value()); vals.push_back(a[i]); } }
+        { Sut x; new (env->slots.at((size_t)o)) A(std::move(a)); } nested_model(o, Shape{N0}, vals);
+    }
+    template <size_t N0, size_t N1> void nested2(long o) {
+        E a[N0][N1]; std::vector<E> vals; { SimGuard g; for (size_t i = 0; i < N0; i++) for (size_t j = 0; j < N1; j++) { a[i][j] = val(env->next_value()); vals.push_back(a[i][j]); } }
+        { Sut x; new (env->slots.at((size_t)o)) A(std::move(a)); } nested_model(o, Shape{N0, N1}, vals);
+    }
+    template <size_t N0, size_t N1, size_t N2> void nested3(long o) {
+        E a[N0][N1][N2]; std::vector<E> vals;
+        { SimGuard g; for (size_t i = 0; i < N0; i++) for (size_t j = 0; j < N1; j++) for (size_t k = 0; k < N2; k++) { a[i][j][k] = val(env->next_value()); vals.push_back(a[i][j][k]); } }
+        { Sut x; new (env->slots.at((size_t)o)) A(std::move(a)); } nested_model(o, Shape{N0, N1, N2}, vals);
+    }
+
     void after_construct(long o) {
         // the model learns the default-constructed shape from the object once (contents unknown), then owns it
         const A& a = *obj(o);
@@ -255,6 +274,17 @@ struct ArrTarget : Target {
                 env->applied(op, on + " " + shape_str(s), true);
             } else { after_construct(o); env->applied(op, on + " " + shape_str(model[o].shape), true); }
             return true;
+        }
+        if (op == "ctor_nested") {   // the legacy classes' constructors from an rvalue nested C array: shape, strides and contents come from the argument
+            if (live(o)) return false;
+            if constexpr (Tr::family == LEGACY_HYBRID || Tr::family == LEGACY_DYNAMIC) {
+                long rank = Tr::family == LEGACY_HYBRID ? Tr::fixed_rank : 1 + n % 3, pick = st.arg(4) % 3;
+                if (rank == 1) { if (pick == 0) nested1<3>(o); else if (pick == 1) nested1<5>(o); else nested1<8>(o); }
+                else if (rank == 2) { if (pick == 0) nested2<2, 3>(o); else if (pick == 1) nested2<3, 2>(o); else nested2<3, 4>(o); }
+                else { if (pick == 0) nested3<2, 3, 2>(o); else if (pick == 1) nested3<1, 2, 3>(o); else nested3<2, 3, 4>(o); }
+                env->applied(op, on + " " + shape_str(model[o].shape), true); env->interesting = true;
+                return true;
+            } else return false;
         }
         if (op == "raw_ctor") {   // plain default construction, state compared as is (not generated; used by findings/ plans)
             if (live(o)) return false;
